@@ -7,6 +7,7 @@ from .. import paths
 from ..core import FUNC, call_attr, calls_in, const, dotted, is_const, kwarg, norm, text, walk_local
 
 EXPLANATION = [
+    'C06.public-address-type: both places where Controller builds its public address from a string (constructor and property setter) pass the PUBLIC_DEVICE_ADDRESS type.',
     'C06.address-equality: Address.__eq__ compares exactly the address bytes and the public / random kind (is_public), so identity-typed and device-typed forms of one address are equal where the controller matches pending connections against advertisers.',
     'C06.pdu-carriers: the link-layer PDU classes of bumble.ll are plain carriers: none of their methods assigns a field (no __post_init__ normalisation), so advertising and data payloads reach the peer controller as built.',
     'C06.match-arms: in the match statements of the anchored modules no class arm comes after an arm for one of its base classes (class patterns are isinstance tests in order: the later arm would never run).',
@@ -390,7 +391,35 @@ def address_equality(ctx, rule='C06.address-equality'):
             f'Address equality compares {sorted(cmp_attrs)}: an identity-typed address no longer equals the same device-typed address, so a pending connection towards it never matches the advertiser and is never concluded', p.loc(fn))
 
 
+def public_address_type(ctx):
+    """Wherever the controller builds its public address from a string (constructor and setter are two implementations
+    of the same thing) it builds a public-typed Address: the link finds controllers by comparing addresses, and equality
+    includes the public / random kind."""
+    R, p = ctx.r, ctx.p
+    rule = 'C06.public-address-type'
+    ci = p.cls(CTRL)
+    if ci is None:
+        R.bad(rule, CTRL, 'anchor missing')
+        return
+    n = 0
+    for name, fn in sorted([(f.name, f) for f in ci.node.body if isinstance(f, FUNC)], key=lambda t: (t[0], t[1].lineno)):   # getter and setter share a name
+        for st in [x for x in ast.walk(fn) if isinstance(x, ast.Assign) and any(dotted(t) in ('self._public_address', 'address') for t in x.targets)]:
+            v = st.value
+            if not (isinstance(v, ast.Call) and (dotted(v.func) or '').endswith('Address')):
+                continue
+            if name not in ('__init__', 'public_address'):
+                continue
+            if isinstance(v.args[0], ast.Constant) if v.args else True:
+                continue        # the all-zero default
+            n += 1
+            typ = norm(v.args[1]) if len(v.args) > 1 else (norm(kwarg(v, 'address_type')) if kwarg(v, 'address_type') is not None else None)
+            R.check(typ is not None and typ.endswith('PUBLIC_DEVICE_ADDRESS'), rule, f'{CTRL}.{name} | {norm(st)[:60]}', 'built as a public device address',
+                    f'`{norm(st)[:70]}` builds the controller\'s public address without the public type (the default is random): lookups by the public address never find this controller (classic connections, public-address advertisers)', p.loc(st))
+    R.check(n >= 2, rule, f'{CTRL} | public address from a string', f'{n} construction sites agree', f'only {n} construction sites found')
+
+
 RULES = [
+    ('C06.public-address-type', public_address_type),
     ('C06.address-equality', address_equality),
     ('C06.pdu-carriers', pdu_carriers),
     ('C06.match-arms', match_arms_rule),
